@@ -31,7 +31,8 @@ def gen_case(seed: int, prop: str, tier: str, fmt: str | None = None) -> dict:
     rng = rng_for(seed, "disk")
     fmt = fmt or PROP_FMT[prop]
     F = fmt_module(fmt)
-    cfg = F.gen_cfg(rng, tier)
+    big = rng.random() < getattr(F, "BIG_RATE", 0.02)
+    cfg = F.gen_cfg(rng, tier, big)
     align = rng.choice([8192] * 6 + [512, 4096, 65536, 1 << 20]) if tier == "thorough" else rng.choice([8192] * 8 + [512, 65536])
     sector = F.sector_size(cfg)
     if align % sector:
